@@ -204,6 +204,7 @@ func c09ServerScenario(prop, name string, frames []c2sFrame, negotiate bool, opt
 	for _, f := range frames {
 		names = append(names, f.name)
 	}
+	opt.AllocRisk = strings.Contains(name, "max") || strings.Contains(name, "GiB")
 	return &Scenario{
 		Name: name, Prop: prop,
 		Desc: fmt.Sprintf("scripted raw tunnel client sends %v to the real tunnel server (handlers read everything and return OK), then hangs up", names),
@@ -336,6 +337,54 @@ func c09Scenarios(tier string) []*Scenario {
 		}
 	}
 	scs = append(scs, c09ClientScenarios(tier)...)
+	// announced sizes: a message envelope that declares far more than it (and the continuation
+	// that follows) carries, in all four roles; what the endpoint allocates must be bounded by
+	// what it received (every execution's heap allocation is measured)
+	type decl struct {
+		n string
+		s uint32
+	}
+	for _, d := range []decl{{"1MiB", 1 << 20}, {"64MiB", 64 << 20}, {"1GiB", 1 << 30}, {"max", maxU32}} {
+		for _, first := range []int{3, 16384} {
+			for _, tail := range []string{"hangup", "cancel"} {
+				d, first := d, first
+				for _, method := range []string{"Bidi", "Unary"} {
+					method := method
+					fr := []c2sFrame{
+						{"N0" + method[:1], func() *tunnelpb.ClientToServer { return fNew(0, "/verif.T/"+method, 1, 65536, "s0") }},
+						{fmt.Sprintf("M0decl%s/%d", d.n, first), func() *tunnelpb.ClientToServer { return fReq(0, d.s, make([]byte, first)) }},
+						{"D0seven", func() *tunnelpb.ClientToServer { return fMoreReq(0, make([]byte, 7)) }},
+					}
+					if tail == "cancel" {
+						fr = append(fr, c2sFrame{"C0", func() *tunnelpb.ClientToServer { return fCancel(0) }})
+					}
+					var nm []string
+					for _, f := range fr {
+						nm = append(nm, f.name)
+					}
+					scs = append(scs, c09ServerScenario("C09", "c09/decl/s/"+strings.Join(nm, ","), fr, true, Options{Level: "io", Bound: 1}))
+					scs = append(scs, c09ReverseServerScenario("c09/decl/r/"+strings.Join(nm, ","), fr, Options{Level: "io", Bound: 1}))
+				}
+				fr := []s2cFrame{
+					{"Hd1", func() *tunnelpb.ServerToClient { return fHdr(1, nil) }},
+					{fmt.Sprintf("Msg1decl%s/%d", d.n, first), func() *tunnelpb.ServerToClient { return fResp(1, d.s, make([]byte, first)) }},
+					{"More1seven", func() *tunnelpb.ServerToClient { return fMoreResp(1, make([]byte, 7)) }},
+				}
+				if tail == "cancel" {
+					fr = append(fr, s2cFrame{"CloseErr1", func() *tunnelpb.ServerToClient { return fClose(1, codes.DataLoss, "scripted") }})
+				}
+				var nm []string
+				for _, f := range fr {
+					nm = append(nm, f.name)
+				}
+				scs = append(scs, c09ClientScenario("c09/decl/c/"+strings.Join(nm, ","), fr, nm, 1))
+				rcs := c09ReverseClientScenario(fr, nm, 1)
+				rcs.Name = "c09/decl/rc/" + strings.Join(nm, ",")
+				rcs.Opt.AllocRisk = d.s >= 1<<30
+				scs = append(scs, rcs)
+			}
+		}
+	}
 	// "... or make it buffer more than one flow-control window of data per open stream": the
 	// overrunning raw peers of C06 (both roles, including peers that announce absurd windows
 	// for their own direction) are part of this property's hostile inputs
@@ -361,7 +410,7 @@ func c09Scenarios(tier string) []*Scenario {
 
 func init() {
 	register(&PropDef{ID: "C09", Level: "model_checking",
-		Rule:      "bounded-exhaustive frame histories: every sequence of length <= 3 (thorough: plus every length-4 history that first opens a stream) over a 26-frame client->server alphabet (new_stream with reused/negative/unknown ids, empty/malformed/unknown methods, unsupported revisions; message envelopes with wrong sizes; continuation frames; half-close; cancel; absurd window updates; frames with no kind; unknown ids) sent by a scripted raw client to the real tunnel server (forward tunnel; and, for the histories of length <= 2 and those that open a stream first, by a scripted network server to a real ReverseTunnelServer), and every sequence of length <= 3 over a 22-frame server->client alphabet sent by a scripted raw server to the real tunnel client running one RPC; each history run with the peer as slow as possible (every frame sent only when the endpoint is quiescent) and, for histories of length <= 2 (quick) / all (thorough), with every single deviation from that (a frame sent early, a thread delayed); each history judged against a reference classifier of the documented protocol (tunnel-level violation => tunnel ends with an error; stream-level => only that RPC fails; late frames ignored) plus no panic, no hang, bounded receiver windows and nothing left behind after the peer hangs up",
+		Rule:      "bounded-exhaustive frame histories: every sequence of length <= 3 (thorough: plus every length-4 history that first opens a stream) over a 26-frame client->server alphabet (new_stream with reused/negative/unknown ids, empty/malformed/unknown methods, unsupported revisions; message envelopes with wrong sizes; continuation frames; half-close; cancel; absurd window updates; frames with no kind; unknown ids) sent by a scripted raw client to the real tunnel server (forward tunnel; and, for the histories of length <= 2 and those that open a stream first, by a scripted network server to a real ReverseTunnelServer), and every sequence of length <= 3 over a 22-frame server->client alphabet sent by a scripted raw server to the real tunnel client running one RPC; each history run with the peer as slow as possible (every frame sent only when the endpoint is quiescent) and, for histories of length <= 2 (quick) / all (thorough), with every single deviation from that (a frame sent early, a thread delayed); each history judged against a reference classifier of the documented protocol (tunnel-level violation => tunnel ends with an error; stream-level => only that RPC fails; late frames ignored) plus no panic, no hang, bounded receiver windows, bounded heap allocation per execution (32 MiB; dedicated histories whose envelope announces 1 MiB .. 4 GiB but carries 3 or 16384 bytes, all four roles) and nothing left behind after the peer hangs up",
 		Globals:   []func(*Scenario, *World, *Exec) []Violation{ProtoMonitor},
 		Scenarios: c09Scenarios})
 }
